@@ -1,6 +1,8 @@
 import DispensoVerif.Model.Chunk
 import DispensoVerif.Model.Bits
 import DispensoVerif.Model.Event
+import DispensoVerif.Model.AsyncReq
+import DispensoVerif.Model.Spsc
 
 /-! Handlers of the dvdriver line protocol. Core Lean only. -/
 namespace Driver
@@ -12,6 +14,8 @@ inductive Sess where
   | none
   | failed
   | event (s : Conc.State Event.proto)
+  | asyncreq (s : Conc.State AsyncReq.proto)
+  | spsc (K : Nat) (s : Conc.State (Spsc.proto K))
 
 structure St where
   sess : Sess := .none
@@ -70,6 +74,11 @@ def traceBegin (args : List String) : Sess × String :=
     match ints rest with
     | some [v] => (.event (Event.init v), "ok")
     | _ => (.failed, "bad-params")
+  | "asyncreq" :: _ => (.asyncreq AsyncReq.init, "ok")
+  | "spsc" :: rest =>
+    match nats rest with
+    | some [K] => (.spsc K (Spsc.init K), "ok")
+    | _ => (.failed, "bad-params")
   | _ => (.failed, "unknown-protocol")
 
 def traceLine (sess : Sess) (toks : List String) : Sess × String :=
@@ -79,6 +88,14 @@ def traceLine (sess : Sess) (toks : List String) : Sess × String :=
   | .event s =>
     match Trace.acceptLine Event.binding s toks with
     | .ok s' => (.event s', "ok")
+    | .error e => (.failed, "MISMATCH " ++ e)
+  | .spsc K s =>
+    match Trace.acceptLine (Spsc.binding K) s toks with
+    | .ok s' => (.spsc K s', "ok")
+    | .error e => (.failed, "MISMATCH " ++ e)
+  | .asyncreq s =>
+    match Trace.acceptLine AsyncReq.binding s toks with
+    | .ok s' => (.asyncreq s', "ok")
     | .error e => (.failed, "MISMATCH " ++ e)
 
 def dispatch (st : St) : List String → St × String
